@@ -399,7 +399,10 @@ def impl_outcome(prog, recs):
                 obs[a].append("skip")
                 ov[a].append(0)
         elif r.get("e") == "end" and end is None:
-            end = r["how"]
+            # an xbt_assert of an ill-formed program may die on a signal while formatting its message (e.g. the owner of a free
+            # mutex is dereferenced by the message of "Cannot wait on a condvar with a mutex owned by another actor"): same
+            # outcome as the abort the semantics predicts, as in the trace specification (TEnd)
+            end = "abort" if r["how"] == "signal" else r["how"]
     return {"obs": obs, "ov": ov, "end": end}
 
 
